@@ -6,10 +6,11 @@ use s3s::crypto::Checksum;
 use s3s::crypto::Md5;
 use s3s::dto;
 use s3s::dto::PartNumber;
+use s3s::{S3Result, s3_error};
 
 use std::env;
 use std::ops::Not;
-use std::path::{Path, PathBuf};
+use std::path::{Component, Path, PathBuf};
 use std::sync::atomic::{AtomicU64, Ordering};
 
 use tokio::fs;
@@ -62,16 +63,37 @@ impl FileSystem {
     }
 
     /// resolve object path under the virtual root
-    pub(crate) fn get_object_path(&self, bucket: &str, key: &str) -> Result<PathBuf> {
-        let dir = Path::new(&bucket);
+    ///
+    /// The key must stay inside its bucket directory: `..`, absolute paths and keys
+    /// that name the bucket directory itself are refused.
+    pub(crate) fn get_object_path(&self, bucket: &str, key: &str) -> S3Result<PathBuf> {
+        let dir = self.get_bucket_path(bucket)?;
         let file_path = Path::new(&key);
-        self.resolve_abs_path(dir.join(file_path))
+        let mut has_name = false;
+        for component in file_path.components() {
+            match component {
+                Component::Normal(_) => has_name = true,
+                Component::CurDir => {}
+                _ => return Err(s3_error!(InvalidArgument, "invalid object key")),
+            }
+        }
+        if !has_name {
+            return Err(s3_error!(InvalidArgument, "invalid object key"));
+        }
+        Ok(self.resolve_abs_path(dir.join(file_path))?)
     }
 
     /// resolve bucket path under the virtual root
-    pub(crate) fn get_bucket_path(&self, bucket: &str) -> Result<PathBuf> {
+    ///
+    /// The bucket must be a single directory name directly under the root.
+    pub(crate) fn get_bucket_path(&self, bucket: &str) -> S3Result<PathBuf> {
         let dir = Path::new(&bucket);
-        self.resolve_abs_path(dir)
+        let mut components = dir.components();
+        match (components.next(), components.next()) {
+            (Some(Component::Normal(_)), None) => {}
+            _ => return Err(s3_error!(InvalidBucketName)),
+        }
+        Ok(self.resolve_abs_path(dir)?)
     }
 
     /// resolve metadata path under the virtual root (custom format)
